@@ -19,6 +19,7 @@ func Run(c *fw.Ctx) {
 	c.Cases("table.vector", c.N(9216, 92160), func(cs *fw.Case) { vectorCase(cs, "table.vector", true) })
 	c.Cases("table.matrix", c.N(10368, 103680), func(cs *fw.Case) { matrixCase(cs, "table.matrix", true) })
 	c.Cases("table.variants", c.N(7128, 71280), tableVariantCase)
+	c.Cases("table.history", c.N(4320, 43200), tableHistoryCase)
 	c.Cases("config.dist", c.N(8400, 84000), configCase)
 	c.Cases("malformed.json", c.N(50400, 504000), malformedJSONCase)
 	c.Cases("malformed.table", c.N(30240, 302400), malformedTableCase)
